@@ -173,11 +173,11 @@ func Run(run *core.Run) core.Coverage {
 	// hand-overs at blocking/finishing points are few.
 	rungs := []sched.Rung{{Bound: 0, MaxFree: -1}, {Bound: 1, MaxFree: -1}, {Bound: 2, MaxFree: -1}, {Bound: 3, MaxFree: 0}, {Bound: 3, MaxFree: -1}}
 	target := 3 // rungs that must complete for exhaustive=true
-	budget := 40 * time.Second
+	budget := 35 * time.Second
 	if !run.Quick() {
-		rungs = append(rungs, sched.Rung{Bound: 4, MaxFree: 0}, sched.Rung{Bound: 4, MaxFree: -1})
-		target = 5
-		budget = 8 * time.Minute
+		// the thorough tier of C19 shares 15 minutes with part (a), whose own budget is 13
+		rungs = append(rungs, sched.Rung{Bound: 4, MaxFree: 0})
+		budget = 75 * time.Second
 	}
 	if v := os.Getenv("C19B_RUNGS"); v != "" { // development aid: "1:0,0:-1"
 		rungs = nil
@@ -380,11 +380,11 @@ func racePass(run *core.Run, cov core.Coverage, foundKinds map[string]int) {
 		cov["race_pass"] = "skipped: " + bin + " not built (props/c19sched/prebuild.sh builds it with go build -race)"
 		return
 	}
-	reps := "300"
+	reps, secs := "300", "12"
 	if !run.Quick() {
-		reps = "5000"
+		reps, secs = "3000", "60"
 	}
-	cmd := exec.Command(bin, reps, run.Tier)
+	cmd := exec.Command(bin, reps, run.Tier, secs)
 	cmd.Env = append(os.Environ(), "GOMAXPROCS=8", "GORACE=halt_on_error=0 exitcode=0")
 	var so, se bytes.Buffer
 	cmd.Stdout, cmd.Stderr = &so, &se
